@@ -323,57 +323,97 @@ def computeDataEnd (t : MToc) (h : Header.Header) : Nat :=
   let b := ((t.frames.filter (fun f => f.active && decide (f.len > 0))).map (fun f => f.off + f.len)).foldl max a
   (t.segs.map (fun s => s.off + s.len)).foldl max b
 
-/-- `Memvid::open` (`open_locked`) -/
-def openRW (C : Codecs) (k : Checks) (file : Bytes) : Except Err Handle := do
-  let hdr0 ← readHeader file
-  let (toc, hdr, vouched) ←
+/-- first stage of `open_locked`: header, then the TOC through `read_toc`, and through `recover_toc`
+    when that fails (the header's `footer_offset` is then replaced by the recovered offset).
+    The flag says whether a footer hash vouches for the TOC bytes. -/
+def rwToc (C : Codecs) (file : Bytes) : Except Err (Header.Header × MToc × Bool) :=
+  match readHeader file with
+  | .error e => .error e
+  | .ok hdr0 =>
     match readToc C file hdr0.footerOffset with
-    | .ok t => pure (t, hdr0, true)
+    | .ok t => .ok (hdr0, t, true)
     | .error _ =>
       match recoverToc C file hdr0.footerOffset with
-      | .ok (t, off, v) => pure (t, { hdr0 with footerOffset := off }, v)
-      | .error e => throw e
-  if !nonOverlapping toc.frames file.length then throw .toc
-  let recs ← walScan C.H file hdr
-  -- lexical index: every failure is swallowed; an out-of-bounds segment may rewrite TOC + footer
-  let laundered := !toc.checksumOk && realigns toc file.length hdr.footerOffset
-  let lex ← loadKind C k file toc .lex
-  let vec ← loadKind C k file toc .vec
-  -- recover_wal: pending records are decoded and applied; the TOC is rewritten afterwards
-  let pend := pending hdr recs
-  let ops := pend.map (fun r => C.walEntry r.payload)
-  if ops.any (·.isNone) then throw .walEntry
-  let replayed := (ops.filter (· = some true)).length
-  let memories ← loadKind C k file toc .memories
-  let mesh ← loadKind C k file toc .mesh
-  let sketch ← loadKind C k file toc .sketch
-  -- the deferred `toc.verify_checksum()?` — only reached with the TOC the handle holds at that point
-  if !toc.checksumOk && !laundered && pend.isEmpty then throw .tocChecksum
-  pure { file := file, hdr := hdr, toc := toc, dataEnd := computeDataEnd toc hdr, replayed := replayed,
-         lex := lex, vec := vec, memories := memories, mesh := mesh, sketch := sketch,
-         laundered := (!vouched || !toc.checksumOk) }
+      | .ok (t, off, v) => .ok ({ hdr0 with footerOffset := off }, t, v)
+      | .error e => .error e
+
+/-- the deferred `if checksum_result.is_err() { self.toc.verify_checksum()? }` at the end of
+    `open_locked`: it looks at the TOC the handle holds THEN — rewritten with a fresh checksum when
+    `align_footer_with_catalog` ran or when WAL records were replayed -/
+def finalTocOk (toc : MToc) (realigned pendEmpty : Bool) : Bool :=
+  toc.checksumOk || realigned || !pendEmpty
+
+/-- the indexes loaded at open, in the order lex, vec, memories, mesh, sketch -/
+structure Indexes where
+  lex : Loaded
+  vec : Loaded
+  memories : Loaded
+  mesh : Loaded
+  sketch : Loaded
+deriving DecidableEq, Repr
+
+def loadAll (C : Codecs) (k : Checks) (file : Bytes) (toc : MToc) : Except Err Indexes :=
+  match loadKind C k file toc .lex, loadKind C k file toc .vec, loadKind C k file toc .memories,
+        loadKind C k file toc .mesh, loadKind C k file toc .sketch with
+  | .ok lex, .ok vec, .ok memories, .ok mesh, .ok sketch =>
+    .ok { lex := lex, vec := vec, memories := memories, mesh := mesh, sketch := sketch }
+  | .error e, _, _, _, _ => .error e
+  | _, .error e, _, _, _ => .error e
+  | _, _, .error e, _, _ => .error e
+  | _, _, _, .error e, _ => .error e
+  | _, _, _, _, .error e => .error e
+
+/-- `Memvid::open` (`open_locked`) -/
+def openRW (C : Codecs) (k : Checks) (file : Bytes) : Except Err Handle :=
+  match rwToc C file with
+  | .error e => .error e
+  | .ok (hdr, toc, vouched) =>
+    if !nonOverlapping toc.frames file.length then .error .toc else
+    match walScan C.H file hdr with
+    | .error e => .error e
+    | .ok recs =>
+      -- recover_wal: pending records are decoded and applied; the TOC is rewritten afterwards
+      if ((pending hdr recs).map (fun r => C.walEntry r.payload)).any (·.isNone) then .error .walEntry else
+      -- init_tantivy: every failure is swallowed; an out-of-bounds segment rewrites TOC + footer
+      if !finalTocOk toc (realigns toc file.length hdr.footerOffset) (pending hdr recs).isEmpty then .error .tocChecksum else
+      match loadAll C k file toc with
+      | .error e => .error e
+      | .ok ix =>
+        .ok { file := file, hdr := hdr, toc := toc, dataEnd := computeDataEnd toc hdr,
+              replayed := (((pending hdr recs).map (fun r => C.walEntry r.payload)).filter (· = some true)).length,
+              lex := ix.lex, vec := ix.vec, memories := ix.memories, mesh := ix.mesh, sketch := ix.sketch,
+              laundered := (!vouched || !toc.checksumOk) }
+
+/-- the TOC a read-only open uses: the one in front of the last valid footer, and it must pass its
+    own checksum (`load_tail_snapshot`) -/
+def roToc (C : Codecs) (file : Bytes) : Except Err (Footer.FooterSlice × MToc) :=
+  match C.findFooter file with
+  | none => .error .toc
+  | some s =>
+    match C.decodeToc s.tocBytes with
+    | none => .error .toc
+    | some t => if t.checksumOk then .ok (s, t) else .error .tocChecksum
 
 /-- `Memvid::open_read_only` (`open_read_only_snapshot`): the TOC comes from the last valid footer
     only (`load_tail_snapshot`), the header's `footer_offset` / `toc_checksum` are ignored, the WAL is
     scanned but never replayed -/
-def openRO (C : Codecs) (k : Checks) (file : Bytes) : Except Err Handle := do
-  let s ← match C.findFooter file with
-    | some s => pure s
-    | none => throw .toc
-  let toc ← match C.decodeToc s.tocBytes with
-    | some t => pure t
-    | none => throw .toc
-  if !toc.checksumOk then throw .tocChecksum
-  let hdr0 ← readHeader file
-  let hdr := { hdr0 with footerOffset := s.footerOffset }
-  let _ ← walScan C.H file hdr
-  let lex ← loadKind C k file toc .lex
-  let vec ← loadKind C k file toc .vec
-  let memories ← loadKind C k file toc .memories
-  let mesh ← loadKind C k file toc .mesh
-  let sketch ← loadKind C k file toc .sketch
-  pure { file := file, hdr := hdr, toc := toc, dataEnd := s.footerOffset, replayed := 0,
-         lex := lex, vec := vec, memories := memories, mesh := mesh, sketch := sketch, laundered := false }
+def openRO (C : Codecs) (k : Checks) (file : Bytes) : Except Err Handle :=
+  match roToc C file with
+  | .error e => .error e
+  | .ok (s, toc) =>
+    match readHeader file with
+    | .error e => .error e
+    | .ok hdr0 =>
+      match walScan C.H file { hdr0 with footerOffset := s.footerOffset } with
+      | .error e => .error e
+      | .ok _ =>
+        match loadAll C k file toc with
+        | .error e => .error e
+        | .ok ix =>
+          .ok { file := file, hdr := { hdr0 with footerOffset := s.footerOffset }, toc := toc,
+                dataEnd := s.footerOffset, replayed := 0,
+                lex := ix.lex, vec := ix.vec, memories := ix.memories, mesh := ix.mesh, sketch := ix.sketch,
+                laundered := false }
 
 /-! ### reads -/
 
@@ -469,8 +509,7 @@ deriving DecidableEq, Repr
     Checks of the code before the repair: time index decodes, (legacy) lex and vec indexes "decode"
     (failures are swallowed by the loaders, so these two never fail), no pending WAL record, frame
     count.  The repair adds the payload pass and the segment checksum pass. -/
-def verify (C : Codecs) (k : Checks) (file : Bytes) : Except Err Verdict := do
-  let h ← openRO C k file
+def verifyChecks (C : Codecs) (k : Checks) (file : Bytes) (h : Handle) : Verdict :=
   let timeOk := match timeIndex C k h with
     | .ok _ => true
     | .error _ => false
@@ -480,10 +519,15 @@ def verify (C : Codecs) (k : Checks) (file : Bytes) : Except Err Verdict := do
   let payloadOk := !k.verifyPayload ||
     (h.toc.frames.filter (fun f => f.active && decide (f.len > 0))).all (fun f => (readRaw C k h f).toOption.isSome)
   let segOk := !k.verifySegments ||
-    (h.toc.segs.filter (fun s => s.len > 0)).all (fun s =>
+    (h.toc.segs.filter (fun s => decide (s.len > 0))).all (fun s =>
       match readRange file s.off s.len with
-      | some b => C.H b = s.checksum
+      | some b => decide (C.H b = s.checksum)
       | none => false)
-  pure (if timeOk && walOk && payloadOk && segOk then .passed else .failed)
+  if timeOk && walOk && payloadOk && segOk then .passed else .failed
+
+def verify (C : Codecs) (k : Checks) (file : Bytes) : Except Err Verdict :=
+  match openRO C k file with
+  | .error e => .error e
+  | .ok h => .ok (verifyChecks C k file h)
 
 end Mv.Integrity
